@@ -161,6 +161,26 @@ EMBEDDED_VALUES = [None, True, 0, 1.5, "", "x", "AA", "sig", "enc", "deriveKey",
                    ["deriveKey", {}], ["deriveKey", ["x"]], {}, {"a": []}, "P-256", "X25519", "EC", "OKP", "é", "A" * 43, "_" * 43, 2 ** 70]
 
 
+def boundary_integers(ctx, R_):
+    """Integer header members at the edges of what the primitives accept (never inside: that would run them)."""
+    from joserfc import jwe, jwt
+    keys = keyring()
+    edges = [-2 ** 63, -2 ** 31, -1, 0, 2 ** 31, 2 ** 31 + 1, 2 ** 32 - 1, 2 ** 32, 2 ** 63 - 1, 2 ** 63, 2 ** 64, 10 ** 30]
+    for alg in ("PBES2-HS256+A128KW", "PBES2-HS384+A192KW", "PBES2-HS512+A256KW"):
+        for p2c in edges:
+            for kn in ("oct16", "oct32"):
+                h = {"alg": alg, "enc": "A128GCM", "p2s": "c2FsdHNhbHQ", "p2c": p2c}
+                tok = jb(h) + b"." + b64(b"k" * 24) + b"." + b64(b"i" * 12) + b"." + b64(b"c" * 5) + b"." + b64(b"t" * 16)
+                R_.call("jwe.decrypt_compact", f"p2c={p2c} {alg} key={kn}", lambda: jwe.decrypt_compact(tok, keys[kn], algorithms=E.ALL_NAMES))
+                R_.call("jwt.decode(jwe)", f"p2c={p2c} {alg} key={kn}", lambda: jwt.decode(tok, keys[kn], registry=jwe.JWERegistry(algorithms=E.ALL_NAMES)))
+                d = {"protected": jb({"enc": "A128GCM"}).decode(), "iv": b64(b"i" * 12).decode(), "ciphertext": "Y2M", "tag": "dHR0dHR0dHR0dHR0dHR0dA",
+                     "recipients": [{"header": {"alg": alg, "p2s": "c2FsdHNhbHQ", "p2c": p2c}, "encrypted_key": "a2tra2tra2tra2tra2tra2tra2tra2tr"}]}
+                R_.call("jwe.decrypt_json", f"general p2c={p2c} {alg} key={kn}", lambda: jwe.decrypt_json(copy.deepcopy(d), keys[kn], algorithms=E.ALL_NAMES))
+                # producing side: the caller's own p2c
+                R_.call("jwe.encrypt_compact", f"p2c={p2c} {alg} key={kn}",
+                        lambda: jwe.encrypt_compact({"alg": alg, "enc": "A128GCM", "p2c": p2c}, b"x", keys[kn], algorithms=E.ALL_NAMES))
+
+
 def embedded_keys(ctx, R_):
     """epk / jwk header members that are well-formed public JWKs except for ONE member of every JSON type
     (including unhashable values nested in lists), for every key-agreement algorithm and entry point."""
@@ -406,6 +426,7 @@ def run(ctx):
     R_ = Runner(ctx)
     grammar(ctx, R_)
     embedded_keys(ctx, R_)
+    boundary_integers(ctx, R_)
     mutations(ctx, R_)
     inner(ctx, R_)
     random_bytes(ctx, R_)
